@@ -25,6 +25,21 @@ Monitors (all installed from here, nothing in /repo is edited)
       Python ``.typ`` and the wrapper's ``row.dtype`` / ``globals.dtype`` / ``key`` (col / entry / col_key) must equal it
       EXACTLY, field order included.  Node classes without transcription are recorded (``relational_rule_not_transcribed``)
       and not judged.
+  M7  the IR that is actually SENT.  Every action (collect / count / write / globals / aggregate, MatrixTable likewise) first REBUILDS the
+      pipeline node by node (`handle_randomness` -> the hand-written `_handle_randomness` of every relational node and stream node:
+      uid fields are threaded through, rng states bound); whenever seeded randomness occurs anywhere in the pipeline -- and for every
+      pipeline when the action itself asks for row / col uids -- what reaches the backend is that rebuilt tree, never the one the wrapper
+      shows.  After every Table / MatrixTable operation the monitor performs the rebuild exactly as the action constructors do (without
+      uids; with a row uid; for matrix tables with row+col / row / col uids), types the REBUILT tree bottom-up with the transcribed
+      engine rules and demands: the type it implies equals the type the front end reports for the table / matrix table (exactly, field
+      order included; with uids requested: the reported fields in the reported order with the reported types, further uid fields
+      tolerated and recorded), every rebuilt relational node agrees with its engine rule, `TableCollect(...).typ` (what results are decoded
+      with) is the reported one, and -- on finished programs -- every reference inside the rebuilt tree is typed as its rebuilt binder
+      provides (a binder that only ADDS uid fields to a struct that is merely projected from is fine).  The phases `table-sent` and
+      `matrix-sent` generate the pipelines this needs: seeded randomness in about half of the generated expressions (value level, inside
+      stream bodies, in aggregations and scans, in filters / keys / globals, on the right side of joins, in the action's own query) and
+      every relational node kind the front end can emit offline with every type-relevant optional constructor argument (interval joins
+      with and without all_matches from tables and from matrix rows, sorted key_by, un-keying, foreign-key joins, ...).
 Contract evaluations are counted; zero => INCONCLUSIVE (FLOORS).
 """
 import math
@@ -45,7 +60,16 @@ RULE = (
     'rows / cols / entries / localize_entries, aggregate_* (35% / 20% of the matrix cases start by re-keying rows / cols by a new, '
     'non-leading field; group_rows_by / group_cols_by half of the time with aggregate_rows / aggregate_cols; union_cols only with '
     'VERIF_C36_UNION_COLS=1).  After every Table / MatrixTable operation every relational node of the emitted IR is re-typed with the '
-    'transcribed engine rules and compared exactly (field order included) with the Python node and the wrapper.  A case is non-trivial '
+    'transcribed engine rules and compared exactly (field order included) with the Python node and the wrapper; the pipeline is also rebuilt '
+    'the way every action rebuilds it (handle_randomness without uids / with row uid / for matrix tables row+col, row, col uids) and the rebuilt '
+    'tree is judged the same way against the type the front end reports.  Phases table-sent / matrix-sent: the same programs over a wider '
+    'operation catalogue (interval-keyed Table.index with all_matches False / True from table rows and matrix rows, all_matches on plain keys, '
+    'tail, naive_coalesce, sample, filter_intervals, semi / anti join, _map_partitions, _filter_partitions, _key_by_assert_sorted, union with a '
+    'randomly filtered copy, table views of random matrix pipelines; annotate_rows / cols / entries from keyed and foreign-keyed tables, choose_cols, '
+    'collect_cols_by_key, explode_cols, union_rows, distinct_by_row, head / tail, sample_rows / cols, unfilter_entries, rename, localize -> '
+    '_unlocalize_entries, add_row / col_index) with seeded randomness (rand_bool / int32 / int64 / unif / norm / pois / beta / gamma / cat / '
+    'hyper / dirichlet / shuffle, inside map / filter / flatmap / sorted / fold / scan / zip bodies, in aggregations, scans, filters, keys, '
+    'globals, join right sides and action queries) in about half of the generated expressions.  A case is non-trivial '
     'when at least one derivational contract was evaluated; distinct by (phase, sequence of operations, resulting type).'
 )
 ASSUMPTIONS = [
@@ -55,6 +79,10 @@ ASSUMPTIONS = [
     'Scala `typ` definition, transcribed by hand into vf/hail_relational_rules.py (TableIR.scala, MatrixIR.scala, TableType / MatrixType / '
     'TStruct helpers, InferType.scala for MakeStruct / SelectFields / InsertFields / GetField / Let / Ref); the transcription is trusted',
     'the schema model of the Table / MatrixTable methods in this file states what the methods are documented to do',
+    '"the IR it sends" is produced by calling the same entry points the action constructors call (ir.TableCollect(tir).child, '
+    'tir.handle_randomness(default_row_uid), mir.handle_randomness(row uid, col uid)); nothing is executed.  MatrixRead._compute_type asks the '
+    'ENGINE for the type of a range_matrix_table read with uids kept; the engine\'s answer (MatrixReader.fullMatrixType + Parser.scala '
+    'MatrixRead DropRowUIDs / DropColUIDs) is supplied by this monitor',
 ]
 TRUSTED_BASE = ['vf/hail_fake_backend.py (no execution)', 'schema model + IR walk in vf/monitors/c36.py', 'vf/hail_relational_rules.py (transcription of the engine\'s relational typing rules)',
                 'vf/shims (decorator, parsimonious, orjson; pandas/pyspark inert)']
@@ -79,6 +107,56 @@ FLOORS = {
     'relational_rule_checked:MatrixRename': 60, 'relational_rule_checked:MatrixFilterRows': 30, 'relational_rule_checked:MatrixFilterCols': 30,
     'relational_rule_checked:MatrixFilterEntries': 30, 'relational_rule_checked:MatrixRowsTable': 60, 'relational_rule_checked:MatrixColsTable': 30,
     'relational_rule_checked:MatrixEntriesTable': 25, 'relational_rule_checked:CastMatrixToTable': 65,
+    # M7 (the IR that is SENT): rebuilt trees judged against the reported type in total / for pipelines WITH seeded randomness per action
+    # variant, reference walks, action result types, randomized expressions, random action queries, distinct relational node kinds (with
+    # their type-relevant optional constructor arguments) that occurred in pipelines with randomness -- and each such kind separately
+    # (about half of the minimum over seeds 0..4 in the quick tier): a run that never rebuilt an interval join with product=True, a sorted
+    # key_by, a MatrixMapCols with an empty new key ... under randomness is INCONCLUSIVE, not HELD
+    'contract_sent_root_type': 7000, 'contract_sent_root_type_random_pipeline': 2900,
+    'contract_sent_root_type_random_pipeline:table:no-uid': 780, 'contract_sent_root_type_random_pipeline:table:row-uid': 750,
+    'contract_sent_root_type_random_pipeline:matrix:no-uid': 560, 'contract_sent_root_type_random_pipeline:matrix:row+col-uid': 560,
+    'contract_sent_root_type_random_pipeline:matrix:row-uid': 110, 'contract_sent_root_type_random_pipeline:matrix:col-uid': 110,
+    'contract_sent_reference_walk': 1800, 'contract_sent_action_result_type': 990, 'sent_random_pipelines': 1400,
+    'randomized_expressions': 280, 'actions_with_random_query': 18, 'sent_relational_rule_checked': 55000,
+    'sent_random_pipeline_node_kinds': 60, 'sent_relational_rule_classes_checked': 45,
+    'sent_random_pipeline_node:CastMatrixToTable': 80, 'sent_random_pipeline_node:CastTableToMatrix': 30,
+    'sent_random_pipeline_node:MatrixAggregateColsByKey': 35, 'sent_random_pipeline_node:MatrixAggregateRowsByKey': 40,
+    'sent_random_pipeline_node:MatrixAnnotateColsTable': 75, 'sent_random_pipeline_node:MatrixAnnotateRowsTable(product=False)': 140,
+    'sent_random_pipeline_node:MatrixAnnotateRowsTable(product=True)': 35, 'sent_random_pipeline_node:MatrixChooseCols': 19,
+    'sent_random_pipeline_node:MatrixCollectColsByKey': 35, 'sent_random_pipeline_node:MatrixColsHead': 17,
+    'sent_random_pipeline_node:MatrixColsTable': 50, 'sent_random_pipeline_node:MatrixColsTail': 20,
+    'sent_random_pipeline_node:MatrixDistinctByRow': 30, 'sent_random_pipeline_node:MatrixEntriesTable': 11,
+    'sent_random_pipeline_node:MatrixExplodeCols(path_len=1)': 15, 'sent_random_pipeline_node:MatrixExplodeCols(path_len=2)': 10,
+    'sent_random_pipeline_node:MatrixExplodeRows(path_len=1)': 40, 'sent_random_pipeline_node:MatrixExplodeRows(path_len=2)': 30,
+    'sent_random_pipeline_node:MatrixFilterCols': 140, 'sent_random_pipeline_node:MatrixFilterEntries': 80,
+    'sent_random_pipeline_node:MatrixFilterIntervals(keep=False)': 6, 'sent_random_pipeline_node:MatrixFilterIntervals(keep=True)': 7,
+    'sent_random_pipeline_node:MatrixFilterRows': 140, 'sent_random_pipeline_node:MatrixKeyRowsBy(is_sorted=False,empty=False)': 230,
+    'sent_random_pipeline_node:MatrixKeyRowsBy(is_sorted=False,empty=True)': 45,
+    'sent_random_pipeline_node:MatrixMapCols(new_key,empty=False)': 170, 'sent_random_pipeline_node:MatrixMapCols(new_key,empty=True)': 1,
+    'sent_random_pipeline_node:MatrixMapCols(new_key=None)': 370, 'sent_random_pipeline_node:MatrixMapEntries': 270,
+    'sent_random_pipeline_node:MatrixMapGlobals': 35, 'sent_random_pipeline_node:MatrixMapRows': 480,
+    'sent_random_pipeline_node:MatrixRead': 670, 'sent_random_pipeline_node:MatrixRename': 110,
+    'sent_random_pipeline_node:MatrixRepartition(strategy=2)': 30, 'sent_random_pipeline_node:MatrixRowsHead': 20,
+    'sent_random_pipeline_node:MatrixRowsTable': 65, 'sent_random_pipeline_node:MatrixRowsTail': 18,
+    'sent_random_pipeline_node:MatrixToMatrixApply(MatrixFilterPartitions)': 30,
+    'sent_random_pipeline_node:MatrixUnionRows': 40,
+    'sent_random_pipeline_node:TableAggregateByKey': 50, 'sent_random_pipeline_node:TableDistinct': 25,
+    'sent_random_pipeline_node:TableExplode(path_len=1)': 25, 'sent_random_pipeline_node:TableExplode(path_len=2)': 40,
+    'sent_random_pipeline_node:TableFilter': 490, 'sent_random_pipeline_node:TableFilterIntervals(keep=False)': 6,
+    'sent_random_pipeline_node:TableFilterIntervals(keep=True)': 9, 'sent_random_pipeline_node:TableHead': 110,
+    'sent_random_pipeline_node:TableIntervalJoin(product=False)': 60, 'sent_random_pipeline_node:TableIntervalJoin(product=True)': 110,
+    'sent_random_pipeline_node:TableJoin(inner,partial_key=False)': 45, 'sent_random_pipeline_node:TableJoin(left,partial_key=False)': 10,
+    'sent_random_pipeline_node:TableJoin(outer,partial_key=False)': 16,
+    'sent_random_pipeline_node:TableJoin(right,partial_key=False)': 13,
+    'sent_random_pipeline_node:TableKeyBy(is_sorted=False,empty=False)': 520,
+    'sent_random_pipeline_node:TableKeyBy(is_sorted=False,empty=True)': 350,
+    'sent_random_pipeline_node:TableKeyBy(is_sorted=True,empty=False)': 100, 'sent_random_pipeline_node:TableKeyByAndAggregate': 160,
+    'sent_random_pipeline_node:TableLeftJoinRightDistinct': 180, 'sent_random_pipeline_node:TableMapGlobals': 170,
+    'sent_random_pipeline_node:TableMapPartitions': 40, 'sent_random_pipeline_node:TableMapRows': 830,
+    'sent_random_pipeline_node:TableOrderBy': 40, 'sent_random_pipeline_node:TableParallelize': 520,
+    'sent_random_pipeline_node:TableRange': 620, 'sent_random_pipeline_node:TableRename': 80,
+    'sent_random_pipeline_node:TableRepartition(strategy=2)': 50, 'sent_random_pipeline_node:TableTail': 25,
+    'sent_random_pipeline_node:TableToTableApply(TableFilterPartitions)': 45, 'sent_random_pipeline_node:TableUnion': 100,
 }
 
 # MatrixTable.union_cols in the matrix workload.  OFF by default: on the unchanged tree it witnesses a GENUINE disagreement between the
@@ -735,7 +813,7 @@ def randomized(rng, hl, e):
     elif t == T.tfloat64:
         opts = [lambda: e * T.rand_unif(0.0, 1.0), lambda: e + T.rand_norm(0, 1), lambda: e + T.rand_pois(2.0), lambda: e * T.rand_beta(1.0, 2.0),
                 lambda: e + T.rand_gamma(1.0, 2.0), lambda: e + T.rand_unif(0.0, 1.0, seed=rng.randint(0, 9)), lambda: e + T.sum(T.rand_dirichlet([1.0, 2.0])),
-                lambda: e + T.rand_norm(size=2)[0]]
+                lambda: e + T.rand_norm(0, 1, seed=rng.randint(0, 9))]
     elif t == T.tstr:
         opts = [lambda: e + T.str(T.rand_int32(9)), lambda: T.if_else(coin(), e, T.str(T.rand_unif(0.0, 1.0)))]
     elif isinstance(t, T.tarray):
@@ -749,7 +827,7 @@ def randomized(rng, hl, e):
                      lambda: T.range(T.rand_int32(1, 4)).map(lambda i: i + T.rand_int32(2)), lambda: e.extend(T.rand_multi_hyper([2, 3], 2)),
                      lambda: e.append(T.fold(lambda a, x: a + x * T.rand_int32(3), 0, e)), lambda: e.map(lambda x: T.sum(T.range(2).map(lambda i: i + x + T.rand_int32(2))))]
         elif et_ == T.tfloat64:
-            opts += [lambda: e.map(lambda x: x * T.rand_unif(0.0, 1.0)), lambda: e.extend(T.rand_unif(0.0, 1.0, size=2)), lambda: e.extend(T.rand_dirichlet([1.0, 2.0])),
+            opts += [lambda: e.map(lambda x: x * T.rand_unif(0.0, 1.0)), lambda: e.append(T.rand_unif(0.0, 1.0)), lambda: e.extend(T.rand_dirichlet([1.0, 2.0])),
                      lambda: e.extend(T.rand_norm2d([0.0, 1.0], [1.0, 0.0, 0.0, 1.0]))]
         elif isinstance(et_, T.tarray):
             opts += [lambda: e.map(lambda x: T.filter(lambda y: coin(), x)), lambda: e.map(lambda x: T.shuffle(x))]
@@ -960,8 +1038,10 @@ def run(ctx):
         return out
 
     def origin_of(root):
-        """a rebuilt pipeline that contains one of the three rewrites KNOWN (by reading and by witness, see the validation record) to leak a
-        uid field into the type: every symptom seen in such a pipeline is attributed to that originating mechanism (DESIGN 3.4)"""
+        """a rebuilt pipeline that contains one of the three rewrites KNOWN (by reading and by witness, see the validation record) to
+        break the type.  Used narrowly: only when the type implied by the rebuilt tree differs from the reported one in exactly the way that
+        rewrite explains (a uid-named field too many / the aggregations gone) are the symptoms of THAT tree attributed to the originating
+        mechanism (DESIGN 3.4); any other disagreement in the same pipeline keeps its own key"""
         stack, seen_ids = [root], set()
         is_uid = lambda f: f.startswith('__') and 'uid' in f  # noqa: E731
         while stack:
@@ -1001,13 +1081,17 @@ def run(ctx):
         if not leak:
             return generic
         ctx.count('sent_uid_field_leaks')
+        leaky.append(True)
         return 'sent-ir/uid-field-leaks-into-reported-type'
 
-    def sent_judge(sent, reported, added, what, variant, random_pipeline):
+    leaky = []   # set by leak_key: the disagreement just judged is leak-shaped
+
+    def sent_judge(sent, reported, added, what, variant, random_pipeline, walk=True):
         """`sent`: the relational IR as rebuilt for an action; `reported`: the RefT / RefM the front end reports for the same table;
         `added`: {part: uid field names the action asked for}"""
         kind = 'table' if isinstance(reported, RefT) else 'matrix'
         start = len(hook.pending)
+        del leaky[:]
         try:
             ref = et_sent.rtype(sent)
         except RecursionError:
@@ -1062,14 +1146,19 @@ def run(ctx):
                 hook.pending.append((generic if generic in keys or len(keys) != 1 else next(iter(keys)),
                                      f'after {what}: the IR rebuilt for an action ({variant}) implies another type than the front end reports -- ' + '; '.join(bad),
                                      {'variant': variant, 'sent_ir': shown}))
-        w = Walker(sctx, hl, sent=True)
-        try:
-            w.walk(sent)
-        except RecursionError:
-            ctx.count('walk_recursion')
-        for key, msg, node in w.problems[:5]:
-            hook.pending.append(('sent-ir/' + key, f'after {what}, IR rebuilt for an action ({variant}): {msg}', {'variant': variant, 'node': str(node)[:1200]}))
-        attribute(origin_of(sent), start)
+        if walk:
+            # (the reference walk is the expensive part and a pipeline contains its prefixes: done on finished programs only)
+            ctx.count('contract_sent_reference_walk')
+            w = Walker(sctx, hl, sent=True)
+            try:
+                w.walk(sent)
+            except RecursionError:
+                ctx.count('walk_recursion')
+            for key, msg, node in w.problems[:5]:
+                hook.pending.append(('sent-ir/' + key, f'after {what}, IR rebuilt for an action ({variant}): {msg}', {'variant': variant, 'node': str(node)[:1200]}))
+        origin = origin_of(sent)
+        if origin is not None and (leaky or (origin.startswith('sent-ir/TableKeyByAndAggregate') and len(hook.pending) > start)):
+            attribute(origin, start)
 
     def rebuilt(label, f):
         """run one `handle_randomness` entry point; a refusal (FatalError: 'does not support randomness in consumers') or a crash of the
@@ -1093,7 +1182,7 @@ def run(ctx):
             ctx.count('recursion')
         return None
 
-    def sent_check_table(t, what):
+    def sent_check_table(t, what, final=True):
         tir = t._tir
         rep = RefT(t.row.dtype, list(t.key), t.globals.dtype)
         rnd = tir.uses_randomness
@@ -1108,21 +1197,24 @@ def run(ctx):
             if coll.child is tir:
                 ctx.count('sent_identical_to_emitted')       # no randomness: nothing rebuilt, M6 has judged this tree already
             else:
-                sent_judge(coll.child, rep, {}, what, 'no-uid', rnd)
+                sent_judge(coll.child, rep, {}, what, 'no-uid', rnd, final)
                 ctx.count('contract_sent_action_result_type')
                 got = rebuilt('TableCollect.typ', lambda: coll.typ)
                 want = hl.tstruct(rows=hl.tarray(t.row.dtype), **{'global': t.globals.dtype})
                 if got is not None and canon(hl, got) != canon(hl, want):
                     start = len(hook.pending)
+                    del leaky[:]
                     hook.pending.append((leak_key(got, want, 'sent-ir/action-result-type-differs-from-reported-type'),
                                          f'after {what}: TableCollect of the rebuilt IR is typed {str(got)[:500]}, the table reports {str(want)[:500]}', {'variant': 'no-uid'}))
-                    attribute(origin_of(coll.child), start)
+                    origin = origin_of(coll.child)
+                    if origin is not None and (leaky or origin.startswith('sent-ir/TableKeyByAndAggregate')):
+                        attribute(origin, start)
         # (b) aggregate with a random query (row uids requested from the whole pipeline)
         sent = rebuilt('handle_randomness(row uid)', lambda: tir.handle_randomness(default_row_uid))
         if sent is not None:
-            sent_judge(sent, rep, {'row': (default_row_uid,)}, what, 'row-uid', rnd)
+            sent_judge(sent, rep, {'row': (default_row_uid,)}, what, 'row-uid', rnd, final)
 
-    def sent_check_matrix(mt, what):
+    def sent_check_matrix(mt, what, final=True):
         mir = mt._mir
         rep = RefM(mt.globals.dtype, list(mt.col_key), mt.col.dtype, list(mt.row_key), mt.row.dtype, mt.entry.dtype)
         rnd = mir.uses_randomness
@@ -1131,14 +1223,15 @@ def run(ctx):
             for k in node_kinds(mir):
                 ctx.seen('sent_random_pipeline_node_kinds', k)
                 ctx.count('sent_random_pipeline_node:' + k)
-        for variant, ru, cu in (('no-uid', None, None), ('row+col-uid', default_row_uid, default_col_uid), ('row-uid', default_row_uid, None), ('col-uid', None, default_col_uid)):
+        variants = (('no-uid', None, None), ('row+col-uid', default_row_uid, default_col_uid), ('row-uid', default_row_uid, None), ('col-uid', None, default_col_uid))
+        for variant, ru, cu in variants if final else variants[:2]:
             sent = rebuilt(f'handle_randomness({variant})', lambda: mir.handle_randomness(ru, cu))
             if sent is None:
                 continue
             if sent is mir:
                 ctx.count('sent_identical_to_emitted')
                 continue
-            sent_judge(sent, rep, {'row': (ru,) if ru else (), 'col': (cu,) if cu else ()}, what, variant, rnd)
+            sent_judge(sent, rep, {'row': (ru,) if ru else (), 'col': (cu,) if cu else ()}, what, variant, rnd, final)
 
     def flush(sample, key, info):
         n = hook.derivational
@@ -1306,7 +1399,7 @@ def run(ctx):
         nm = frozenset(['global']) if globals_only else frozenset(names)
         return Scope(nm, tuple(vs), 'eval', None, 0, allow_agg)
 
-    def check_table(t, m, what):
+    def check_table(t, m, what, final=False):
         """M4 for a Table"""
         typ = t._tir.typ
         cmpz = [
@@ -1322,7 +1415,7 @@ def run(ctx):
         if list(t.row.dtype)[:len(t.key)] != list(t.key):
             ctx.count('table_states_with_key_not_leading')         # layouts in which field ORDER rules can show
         engine_check(t._tir, RefT(t.row.dtype, list(t.key), t.globals.dtype), what)
-        sent_check_table(t, what)
+        sent_check_table(t, what, final)
         if m is not None:
             # field ORDER inside row / globals is not part of what the methods promise (joins, drops ... move key fields first)
             for lab, a, b in (('row', _normd(hl, t.row.dtype), _normd(hl, m.row)), ('globals', _normd(hl, t.globals.dtype), _normd(hl, m.g)), ('key', list(t.key), list(m.key))):
@@ -1406,7 +1499,7 @@ def run(ctx):
     # the wide workload: every op above (with seeded randomness in the generated expressions about half of the time) plus the relational
     # node kinds / optional constructor arguments the plain workload never builds
     TABLE_OPS_WIDE = TABLE_OPS + ['interval_index'] * 5 + ['join', 'index', 'index', 'filter', 'filter', 'group_by', 'tail', 'naive_coalesce', 'sample', 'sample', 'filter_intervals',
-                                  'multi_way_zip_join', 'semi_anti_join', 'map_partitions', 'filter_partitions', 'key_by_sorted', 'key_by_sorted', 'union_rand', 'from_matrix']
+                                  'multi_way_zip_join', 'semi_anti_join', 'map_partitions', 'filter_partitions', 'key_by_sorted', 'key_by_sorted', 'union_rand', 'from_matrix', 'rename', 'globals', 'explode_nested', 'explode']
 
     def table_case(i, rng, wide):
         phase = 'table-sent' if wide else 'table'
@@ -1481,7 +1574,14 @@ def run(ctx):
                 nn = fresh_name(rng, set(m.row) | set(m.g), 'r')
                 m2.row = {(nn if k == f else k): v for k, v in m.row.items()}
                 m2.key = [nn if k == f else k for k in m.key]
-                res = guarded('rename', lambda: t.rename({f: nn}))
+                ren = {f: nn}
+                if wide and m.g and rng.random() < 0.6:
+                    # a global field too (TableRename carries a row map AND a global map)
+                    fg = rng.choice(list(m.g))
+                    ng = fresh_name(rng, set(m.row) | set(m.g) | {nn}, 'r')
+                    m2.g = {(ng if k == fg else k): v for k, v in m.g.items()}
+                    ren[fg] = ng
+                res = guarded('rename', lambda: t.rename(ren))
             elif op == 'transmute' and nonkey:
                 f = rng.choice(nonkey)
                 nn = fresh_name(rng, set(m.row) | set(m.g))
@@ -1659,6 +1759,17 @@ def run(ctx):
                         m2.row[nn] = e.dtype
                         m2.key = [nn]
                         res = guarded(op + '(expr)', lambda: t._key_by_assert_sorted(**{nn: R(e)}))
+            elif op == 'explode_nested':
+                # explode an array that sits INSIDE a struct field (TableExplode with a path of length 2; the uid rewrite zips the nested
+                # array with its indices and rebuilds the enclosing struct twice)
+                nn = fresh_name(rng, set(m.row) | set(m.g), 'x')
+                m2.row[nn] = hl.tstruct(arr=hl.tint32, z=hl.tint32)
+
+                def _en(t=t, nn=nn):
+                    t1 = t.annotate(**{nn: hl.struct(arr=R(hl.range(2)), z=1)})
+                    return t1.explode(t1[nn].arr)
+
+                res = guarded(op, _en)
             elif op == 'from_matrix':
                 # continue from a table view of a small matrix-table pipeline (MatrixRowsTable / MatrixColsTable / MatrixEntriesTable /
                 # CastMatrixToTable over matrix nodes that carry randomness): the table rewrite hands its uid request down into the matrix IR
@@ -1749,10 +1860,13 @@ def run(ctx):
             trace.append(op)
             ctx.seen('table_ops_accepted', op)
             check_table(t, m, op)
+        sent_check_table(t, 'the finished program', final=True)
         finish_program(t._tir, True, phase)
         if wide:
             # the action nodes themselves, through the API where the API does not execute (what the backend decodes results with)
             start = len(hook.pending)
+            del leaky[:]
+            attributed_to = None
             ok, r = guarded('Table.collect', lambda: t.collect(_localize=False))
             if ok:
                 ctx.count('contract_sent_action_result_type')
@@ -1760,18 +1874,21 @@ def run(ctx):
                     hook.pending.append((leak_key(r.dtype, hl.tarray(t.row.dtype), 'sent-ir/action-result-type-differs-from-reported-type'),
                                          f'Table.collect(_localize=False) is typed {r.dtype}, the table reports rows of {t.row.dtype}', {}))
                 finish_program(r._ir, False, phase + '.collect')
-                attribute(origin_of(r._ir), start)
+                origin = origin_of(r._ir)
+                if origin is not None and (leaky or origin.startswith('sent-ir/TableKeyByAndAggregate')):
+                    attributed_to = origin       # (the same rebuilt tree as judged above, reached through the API's own action node)
+                    attribute(origin, start)
             start = len(hook.pending)
             ok, r = guarded('Table.index_globals', lambda: t.index_globals())
             if ok:
                 finish_program(r._ir, False, phase + '.globals')
-                attribute(origin_of(r._ir), start)
+                attribute(attributed_to, start)
         flush({'ops': trace, 'type': str(t._tir.typ)[:300]}, (phase, tuple(trace), str(t._tir.typ)), {'ops': trace, 'table_type': str(t._tir.typ)[:800]})
 
     N = ctx.pick(120, 1200)
     for i, rng in ctx.cases(N, 'table'):
         table_case(i, rng, False)
-    N = ctx.pick(110, 1100)
+    N = ctx.pick(110, 800)
     for i, rng in ctx.cases(N, 'table-sent'):
         table_case(i, rng, True)
 
@@ -1791,7 +1908,7 @@ def run(ctx):
                 vs.append((k, mt[f], frozenset(['global'])))
         return Scope(frozenset(spec[0] + ('global',)), tuple(vs), 'eval', None, 0, allow_agg)
 
-    def check_matrix(mt, m, what):
+    def check_matrix(mt, m, what, final=False):
         typ = mt._mir.typ
         cmpz = [('row', mt.row.dtype, typ.row_type), ('col', mt.col.dtype, typ.col_type), ('entry', mt.entry.dtype, typ.entry_type),
                 ('globals', mt.globals.dtype, typ.global_type), ('row-key', list(mt.row_key), list(typ.row_key)), ('col-key', list(mt.col_key), list(typ.col_key)),
@@ -1805,7 +1922,7 @@ def run(ctx):
         if list(mt.col.dtype)[:len(mt.col_key)] != list(mt.col_key):
             ctx.count('matrix_states_with_col_key_not_leading')
         engine_check(mt._mir, RefM(mt.globals.dtype, list(mt.col_key), mt.col.dtype, list(mt.row_key), mt.row.dtype, mt.entry.dtype), what)
-        sent_check_matrix(mt, what)
+        sent_check_matrix(mt, what, final)
         if m is not None:
             for lab, a, b in (('row', _normd(hl, mt.row.dtype), _normd(hl, m.row)), ('col', _normd(hl, mt.col.dtype), _normd(hl, m.col)),
                               ('entry', _normd(hl, mt.entry.dtype), _normd(hl, m.entry)), ('globals', _normd(hl, mt.globals.dtype), _normd(hl, m.g)),
@@ -1823,7 +1940,7 @@ def run(ctx):
                   'explode_rows', 'rows', 'cols', 'entries', 'localize', 'agg_exprs', 'transmute_entries'] + (['union_cols'] if UNION_COLS_IN_WORKLOAD else [])
     MATRIX_OPS_WIDE = MATRIX_OPS + ['rows_join'] * 4 + ['cols_join'] * 2 + ['entries_join', 'choose_cols', 'collect_cols_by_key', 'explode_cols', 'union_rows', 'distinct_by_row',
                                     'head', 'tail', 'sample_rows', 'sample_cols', 'naive_coalesce', 'filter_partitions', 'filter_intervals', 'unfilter_entries', 'rename',
-                                    'unlocalize', 'add_index', 'filter_rows', 'filter_cols', 'filter_entries', 'row_agg', 'col_agg', 'annotate_cols', 'annotate_rows']
+                                    'unlocalize', 'add_index', 'filter_rows', 'filter_cols', 'filter_entries', 'row_agg', 'col_agg', 'annotate_cols', 'annotate_rows', 'explode_rows', 'entries']
 
     def matrix_case(i, rng, wide):
         phase = 'matrix-sent' if wide else 'matrix'
@@ -2068,6 +2185,15 @@ def run(ctx):
                     f = rng.choice(arrs)
                     m2.col[f] = m.col[f].element_type
                     res = guarded(op, lambda: mt.explode_cols(f))
+                else:
+                    # no array field on the column axis yet: add one (sometimes a random one) and explode it
+                    nn = fresh_name(rng, used, 'x')
+                    if rng.random() < 0.4:   # nested: path of length 2
+                        m2.col[nn] = hl.tstruct(arr=hl.tint32, z=hl.tint32)
+                        res = guarded(op + '(nested)', lambda: (lambda mt1: mt1.explode_cols(mt1[nn].arr))(mt.annotate_cols(**{nn: hl.struct(arr=R(hl.range(2)), z=1)})))
+                    else:
+                        m2.col[nn] = hl.tint32
+                        res = guarded(op, lambda: (lambda mt1: mt1.explode_cols(nn))(mt.annotate_cols(**{nn: R(hl.range(2))})))
             elif op == 'rename':
                 cand = list(m.row) + list(m.col) + list(m.entry) + list(m.g)
                 if cand:
@@ -2100,6 +2226,14 @@ def run(ctx):
                     f = rng.choice(arrs)
                     m2.row[f] = m.row[f].element_type
                     res = guarded(op, lambda: mt.explode_rows(f))
+                elif wide:
+                    nn = fresh_name(rng, used, 'x')
+                    if rng.random() < 0.4:
+                        m2.row[nn] = hl.tstruct(arr=hl.tint32, z=hl.tint32)
+                        res = guarded(op + '(nested)', lambda: (lambda mt1: mt1.explode_rows(mt1[nn].arr))(mt.annotate_rows(**{nn: hl.struct(arr=R(hl.range(2)), z=1)})))
+                    else:
+                        m2.row[nn] = hl.tint32
+                        res = guarded(op, lambda: (lambda mt1: mt1.explode_rows(nn))(mt.annotate_rows(**{nn: R(hl.range(2))})))
             elif op == 'transmute_entries' and m.entry:
                 f = rng.choice(list(m.entry))
                 nn = fresh_name(rng, used)
@@ -2130,7 +2264,7 @@ def run(ctx):
                     tm = TModel(gg, row, m.row_key)
                     ok, tt = guarded(op, lambda: mt.localize_entries('ents', 'colz'))
                 if ok:
-                    check_table(tt, tm, 'MatrixTable.' + op)
+                    check_table(tt, tm, 'MatrixTable.' + op, final=True)
                     finish_program(tt._tir, True, 'matrix.' + op)
                     trace.append(op)
                     ctx.seen('matrix_ops_accepted', op)
@@ -2171,13 +2305,14 @@ def run(ctx):
             trace.append(op)
             ctx.seen('matrix_ops_accepted', op)
             check_matrix(mt, m, op)
+        sent_check_matrix(mt, 'the finished program', final=True)
         finish_program(mt._mir, True, phase)
         flush({'ops': trace, 'type': str(mt._mir.typ)[:300]}, (phase, tuple(trace), str(mt._mir.typ)), {'ops': trace, 'matrix_type': str(mt._mir.typ)[:800]})
 
     N = ctx.pick(80, 750)
     for i, rng in ctx.cases(N, 'matrix'):
         matrix_case(i, rng, False)
-    N = ctx.pick(70, 650)
+    N = ctx.pick(70, 450)
     for i, rng in ctx.cases(N, 'matrix-sent'):
         matrix_case(i, rng, True)
 
@@ -2303,4 +2438,53 @@ def _plain_h(v):
 #   R9  TableLeftJoinRightDistinct puts the joined root first                             -> CAUGHT relational/TableLeftJoinRightDistinct-...  (only M6)
 #   R10 TableKeyByAndAggregate row = aggregations ++ key                                  -> CAUGHT relational/TableKeyByAndAggregate-...      (only M6)
 #   (R6b / R6d used to crash the shard: the broken front end raises LookupError 'no field'; REJECT now takes LookupError)
+# -------------------------------------------------------------------------------------------------
+#
+# -------------------------------------------------------------------------------------------------
+# M7 (the IR that is SENT at an action: handle_randomness rewrites) -- validation record
+# (scratch worktree /tmp/c36w/scratch = /repo HEAD, quick tier, seed 0, one break at a time; worktree removed afterwards)
+#
+# Why: seeded/C36-agent8 (TableIntervalJoin._handle_randomness rebuilds the node without `product`) passed the monitor: no generated
+# pipeline contained seeded randomness, so `handle_randomness(None)` always returned the emitted tree itself, no interval-keyed
+# Table.index(..., all_matches=True) was generated, and nothing compared the REBUILT tree with the reported type.  Also: the engine typer
+# took the joined field's type from the front end (ir.Join was opaque to the struct spine; now it is read through, as it renders).
+#
+# GENUINE disagreements found on the UNCHANGED tree by M7 (each switched OFF in the default workload so that the unchanged tree stays
+# silent until a repair / known finding is registered; the classifier attributes their witnesses to the keys below):
+#   G1  sent-ir/uid-field-leaks-into-reported-type/TableMultiWayZipJoin            (VERIF_C36_MULTI_WAY_ZIP_JOIN=1)
+#       t = hl.utils.range_table(4).annotate(a=1); z = hl.Table.multi_way_zip_join([t, t], 'data', 'g'); z = z.filter(hl.rand_bool(.5))
+#       reported z.row: struct{idx, data: array<struct{a}>}; TableCollect(z._tir).child / .typ: data: array<struct{a, __uid: tuple(int64,int64)}>.
+#       TableMultiWayZipJoin._handle_randomness(uid) inserts the uid as a VALUE field into every child, and the zip join's `data` is the
+#       array of the children's value structs.  Any consumer that needs row uids (random filter / annotate / sample / keyed aggregation)
+#       above a multi_way_zip_join sends a table whose data elements carry an extra field (and the parent nodes keep the cached type).
+#   G2  sent-ir/uid-field-leaks-into-reported-type/MatrixEntriesTable              (VERIF_C36_ENTRIES_UNDER_RANDOMNESS=1)
+#       mt = hl.utils.range_matrix_table(3, 2); e = mt.entries().filter(hl.rand_bool(.5))        (also .sample(p), .annotate(r=hl.rand_unif(0, 1)))
+#       reported e.row: struct{row_idx, col_idx}; TableCollect(e._tir).typ rows: struct{row_idx, col_idx, __col_uid: int64}.
+#       MatrixEntriesTable._handle_randomness(uid) asks its child for (temp row uid, `__col_uid`), drops the temp row uid and never drops
+#       `__col_uid`; TableFilter / TableMapRows above only drop the uid they asked for.
+#   G3  sent-ir/TableKeyByAndAggregate-random-key-rewrite-replaces-aggregations    (VERIF_C36_RANDOM_GROUP_KEY=1)
+#       t = hl.utils.range_table(4); g = t.group_by(k=hl.rand_bool(.5)).aggregate(n=hl.agg.count())
+#       reported g.row: struct{k: bool, n: int64}; the node sent is TableKeyByAndAggregate(child, expr = Let(__rng_state, ..., NEW_KEY), new_key):
+#       `_handle_randomness` ends with `expr = ir.Let('__rng_state', ..., new_key)` (should assign `new_key`), so the aggregations are
+#       gone: TableCollect of the rebuilt node is typed rows: array<struct{k: bool}> by the front end itself, and the engine's
+#       `keyType ++ expr.typ` (key ++ key) rejects the overlap.
+# Not a defect (looked at because the shape is similar): TableAggregate / TableKeyByAndAggregate / TableAggregateByKey with a random
+# aggregation let `row` refer to the child row INCLUDING the uid field; `t.row` renders as (SelectFields (f ...) (Ref row)), so no value can
+# pick the uid up -- the sent-mode walk tolerates exactly that (a binder that only adds fields to a struct that is projected from) and
+# flags a whole-struct use (`ref/whole-struct-reference-sees-fields-added-by-the-rewrite`).  MatrixExplodeRows / MatrixExplodeCols
+# `_handle_randomness` forget a `return` in their no-uid branch; the fall-through happens to build the same node.
+#
+# Breaks (each in the scratch worktree; all CAUGHT in the quick tier, seed 0):
+#   S1  seeded/C36-agent8: TableIntervalJoin._handle_randomness drops `product`     -> sent-ir/relational/TableMapRows-type-differs-from-engine-rule,
+#                                                                                      sent-ir/ref/field-type-differs-from-relational-binder (+ relational/TableMapRows-..., ref/..., deep-typecheck
+#                                                                                      through Table.collect(_localize=False) of the finished program)
+#   S2  MatrixAnnotateRowsTable._handle_randomness drops `product`                   -> sent-ir/relational/MatrixMapRows-type-differs-from-engine-rule, sent-ir/ref/field-type-differs-...
+#   S3  MatrixMapCols._handle_randomness (random branch) passes new_key=None        -> sent-ir/matrix-type-differs-from-reported-type, sent-ir/relational/MatrixMapCols-..., ...
+#   S4  TableLeftJoinRightDistinct._handle_randomness asks the RIGHT side for the uid too (joined struct carries it)
+#                                                                                   -> sent-ir/relational/TableMapRows-type-differs-from-engine-rule, sent-ir/ref/field-type-differs-...
+#   S5  MatrixFilterRows._handle_randomness never drops the row uid it asked for    -> sent-ir/uid-field-leaks-into-reported-type, sent-ir/ref/whole-struct-reference-sees-fields-added-by-the-rewrite, ...
+#   S6  TableKeyBy._handle_randomness keeps only the first key field                -> sent-ir/table-type-differs-from-reported-type, sent-ir/relational/TableMapRows-..., ...
+#   S7  TableRename._handle_randomness drops the global map                          -> sent-ir/table-type-differs-from-reported-type, sent-ir/relational/TableMapGlobals-engine-rule-rejects-rebuilt-node
+#       (needed rename of a GLOBAL field in the workload: added)
+#   earlier seeds C36-agent2 / agent4 / agent6: still caught (same keys as before, plus their sent-ir/ twins).
 # -------------------------------------------------------------------------------------------------
